@@ -133,8 +133,11 @@ pub fn c12(args: &Args) -> Acc {
             cfg.ox = rng.range(0, (fw - cfg.w) as i64) as u16;
             cfg.oy = rng.range(0, (fh - cfg.h) as i64) as u16;
             cfg.ori = Ori(rng.below(8) as u8);
-            cfg.spi_buf = gen::spi_buf_len(&mut rng, m.bits());
+            cfg.spi_buf = gen::spi_buf_len(&mut rng, m.bits()).min(4098);
             cfg.rst = rng.bool();
+            cfg.bgr = rng.bool();
+            cfg.refresh = rng.below(4) as u8;
+            cfg.invert = rng.bool();
             let (lw, lh) = if cfg.ori.rot() & 1 == 0 { (cfg.w as i64, cfg.h as i64) } else { (cfg.h as i64, cfg.w as i64) };
             let mut tags = TagGen::new(&mut rng);
             let new_ori = Ori(rng.below(8) as u8);
@@ -164,11 +167,31 @@ pub fn c12(args: &Args) -> Acc {
                     }
                 }
             };
+            // calls that set the scene for the call under test (a wake is most interesting on a
+            // sleeping display; drawing after an earlier orientation change)
+            let mut pre: Vec<Op> = Vec::new();
+            if matches!(op, Op::Wake) && rng.bool() {
+                pre.push(Op::Sleep);
+            }
+            if rng.chance(1, 6) {
+                pre.push(Op::SetPixel { x: 0, y: 0, c: 0x2222 });
+            }
+            // a solid fill before, and the same colour again (smaller) right after the fault: a
+            // transport that remembers "the staging buffer already holds this fill" is exposed
+            let refill = if rng.chance(1, 3) {
+                pre.push(Op::FillSolid { rect: Rect { x: 0, y: 0, w: lw as u32, h: lh as u32 }, c: 0x3C5A });
+                true
+            } else {
+                false
+            };
             // dry run
             let Opened::Ready(mut dry) = Session::open(&cfg) else {
                 a.violate("calls", idx, "init", "init failed".to_string(), cfg.to_json());
                 return;
             };
+            for p in &pre {
+                let _ = dry.step(p);
+            }
             let rep = dry.step(&op);
             if rep.result != CallResult::Ok {
                 a.count("dry_run_not_ok", 1);
@@ -180,9 +203,12 @@ pub fn c12(args: &Args) -> Acc {
             a.seen("transports", tr.name());
             for eff in &effs {
                 for k in 0..nops {
-                    let cj = || J::obj().with("config", cfg.to_json()).with("call", op.to_json()).with("fail_op", k).with("of", nops).with("effect", format!("{:?}", eff));
+                    let cj = || J::obj().with("config", cfg.to_json()).with("before", gen::prog_json(&pre)).with("call", op.to_json()).with("fail_op", k).with("of", nops).with("effect", format!("{:?}", eff));
                     a.case(&format!("{}/{:?}/{}/{:?}/{}", idx, op.name(), k, eff, cfg.tr.name()), true);
                     let Opened::Ready(mut s) = Session::open_with(&cfg, None, *eff, false) else { return };
+                    for p in &pre {
+                        let _ = s.step(p);
+                    }
                     let before_sleep = s.rig.is_sleeping();
                     let madctl_before = s.panel.madctl;
                     let r = s.step_with(&op, Some(k));
@@ -229,8 +255,11 @@ pub fn c12(args: &Args) -> Acc {
                     // bus reported failure, driver and controller can only be re-synchronised by
                     // issuing the call again.
                     let orientation_delivered = matches!(op, Op::SetOrientation(_)) && s.panel.madctl != madctl_before;
+                    // an undelivered set_orientation: half of the time simply try again (the retry
+                    // must then really reach the controller), otherwise carry on in the old orientation
+                    let retry_anyway = (k + idx) % 2 == 0;
                     let reissue = match &op {
-                        Op::SetOrientation(_) => orientation_delivered,
+                        Op::SetOrientation(_) => orientation_delivered || retry_anyway,
                         Op::Sleep | Op::Wake | Op::ScrollRegion(..) | Op::ScrollOffset(_) | Op::Tearing(_) => true,
                         _ => false,
                     };
@@ -242,6 +271,9 @@ pub fn c12(args: &Args) -> Acc {
                     }
                     if matches!(op, Op::Sleep) {
                         recovery.push(Op::Wake);
+                    }
+                    if refill && !matches!(op, Op::SetOrientation(_)) {
+                        recovery.push(Op::FillSolid { rect: Rect { x: 0, y: 0, w: (lw as u32).min(3), h: 1 }, c: 0x3C5A });
                     }
                     recovery.push(Op::Clear { c: 0x1234 });
                     let (lw2, lh2) = s.reffb.lsize();
@@ -256,6 +288,39 @@ pub fn c12(args: &Args) -> Acc {
                     for _ in 0..3 {
                         recovery.extend(gen::gen_draw_op(&mut r2, lw2, lh2, m.bits(), &mut t2, &po));
                     }
+                    // every third fault position: a *second* fault hits the first low-level operations of
+                    // the next call as well; it must be reported, and the call after it must work
+                    if k % 3 == 1 {
+                        if let Some(first) = recovery.first().cloned() {
+                            let k2 = (k / 3) % 12;
+                            let r2 = s.step_with(&first, Some(k2));
+                            if let CallResult::Panic { msg, loc } = &r2.result {
+                                a.violate("calls", idx, format!("{}/second-fault/panic@{}", base, loc), msg.clone(), cj().with("second_fault_op", k2));
+                                continue;
+                            }
+                            if r2.result == CallResult::Ok && s.tl.0.borrow().faulted.is_some() {
+                                a.violate("calls", idx, format!("{}/second-fault/error-swallowed", base), format!("{} returned Ok although its operation {} failed", first.name(), k2), cj().with("second_fault_op", k2));
+                                continue;
+                            }
+                            a.count("second_faults_injected", 1);
+                            // a failed set_orientation retry may or may not have reached the controller:
+                            // resynchronise by issuing it once more, fault-free
+                            if let Op::SetOrientation(_) = &first {
+                                if r2.result != CallResult::Ok {
+                                    let rr = s.step(&first);
+                                    if rr.result != CallResult::Ok {
+                                        a.violate("calls", idx, format!("{}/second-fault/retry-failed", base), format!("{:?}", rr.result), cj());
+                                        continue;
+                                    }
+                                    recovery.remove(0);
+                                }
+                            }
+                        }
+                    }
+                    // and finally a later orientation change must still carry the configured colour and
+                    // refresh order (checked by the session's address-mode monitor)
+                    recovery.push(Op::SetOrientation(Ori(((k as u8) ^ (idx as u8)) % 8)));
+                    recovery.push(Op::SetPixel { x: 0, y: 0, c: 0x0F0F });
                     let mut ok = true;
                     for rop in &recovery {
                         let rr = s.step(rop);
